@@ -277,6 +277,21 @@ def model_vals(case, ser):
     return out
 
 
+def span_knot_cases():
+    """non-uniform knot vectors whose span equals (number of intervals) x (first step) - they look equidistant
+    from the first step and the end points alone; queried at every knot, between knots and outside, all modes"""
+    out = []
+    for ts in ([0, 1, Fraction(3, 2), 3], [0, 3600, 5400, 7200, 10800, 18000], [2, Fraction(5, 2), 4, Fraction(7, 2) + 1, 5],
+               [-1, 0, Fraction(1, 4), 2]):
+        ts = [Fraction(t) for t in ts]
+        fs = [Fraction((7 * i * i - 11 * i) % 13 - 5, 2) for i in range(len(ts))]
+        tq = list(ts) + [a + (b - a) * w for a, b in zip(ts, ts[1:]) for w in (Fraction(1, 4), Fraction(1, 2))]
+        for mode in (0, 1, 2):
+            out.append({"k": "interp", "kind": "array", "mode": mode, "ts": [fx(x) for x in ts], "cols": [[fx(x) for x in fs]],
+                        "tq": [fx(x) for x in tq], "fl": "nan", "fr": "nan"})
+    return out
+
+
 # ---- symbolic -------------------------------------------------------------------------------------
 def symbolic_impl(case):
     from rtctools._internal.casadi_helpers import interpolate as sym_interp
@@ -540,6 +555,7 @@ def run(ctx):
             cases.append(gen_interp(ctx.rng))
         for _ in range(ctx.n(700, 30000)):
             cases.append(gen_merge(ctx.rng))
+        cases += span_knot_cases()
     icases = [c for c in cases if c["k"] == "interp"]
     mcases = [c for c in cases if c["k"] == "merge"]
 
